@@ -969,6 +969,14 @@ func runC08(c *vlib.Ctx) {
 		d := depth
 		if big {
 			d = depth - 1
+		} else {
+			// start from non-initial states too: deep roots that the depth bound would not reach, each expanded like a
+			// frontier state of level 1 (so depth-1 more levels from there). A body whose namesake supervoxel was cleaved
+			// away; a split remainder merged elsewhere; a renumbered merge target in a child version.
+			frontier = append(frontier,
+				[]c08Op{{K: "merge", A: 1, B: []uint64{2}}, {K: "cleave", A: 1, B: []uint64{1}}},
+				[]c08Op{{K: "splitsv", A: 1, Shape: "half-in-block"}, {K: "merge", A: 2, B: []uint64{1}}},
+				[]c08Op{{K: "merge", A: 3, B: []uint64{5}}, {K: "newversion"}, {K: "renumber", A: 77, B: []uint64{3}}})
 		}
 		for lvl := 1; lvl <= d && len(frontier) > 0; lvl++ {
 			jobs := make([]string, len(frontier))
@@ -1005,6 +1013,9 @@ func runC08(c *vlib.Ctx) {
 						seen[s.Canon] = true
 						states++
 						c.Nontrivial(fmt.Sprintf("%v:%s", big, s.Canon))
+						if deep := len(frontier[i]) > lvl-1; deep && (!c.Thorough() || lvl > 1) {
+							continue // states below a deep root: expanded one level (thorough: two), not to the full depth
+						}
 						next = append(next, append(append([]c08Op{}, frontier[i]...), s.Op))
 					}
 				}
@@ -1038,7 +1049,7 @@ func runC08(c *vlib.Ctx) {
 	c.Set("transitions", transitions)
 	c.Set("traces_validated_against_impl", transitions)
 	c.Set("read_requests", reads)
-	c.Set("bound", fmt.Sprintf("BFS depth %d (big-label layout: %d) over merge / cleave / split-supervoxel (6 shapes) / renumber / mutating raw writes (3 regions x 3 fills) / newversion / branch, valid and invalid arguments, on a 32x32x16 volume of 16^3 blocks", depth, depth-1))
+	c.Set("bound", fmt.Sprintf("BFS depth %d (big-label layout: %d) over merge / cleave / split-supervoxel (6 shapes) / renumber / mutating raw writes (3 regions x 3 fills) / newversion / branch, valid and invalid arguments, on a 32x32x16 volume of 16^3 blocks; plus 3 deep roots (namesake supervoxel cleaved away, split remainder merged elsewhere, renumbered merge target in a child version) expanded 1 level (thorough 2)", depth, depth-1))
 	c.Sample(map[string]interface{}{"history": "merge(1[4]) cleave(1[4]) splitsv(2,cross-border)", "checked": "all versions: raw, raw?supervoxels, mapping, size, sizes, supervoxels, supervoxel-sizes, sparsevol, sparsevol-size, sparsevol-coarse, index, labels (every voxel), label, maxlabel; ghost bodies"})
 	c.Set("rule", "state = reference model (supervoxel array + mapping per version) reached by a history; transition = one real request followed by runtime-level quiescence; after every transition every read endpoint of every version is compared with the scan of stored supervoxels + mapping, and the scan with the reference model")
 	c.Assume("body split (/split) is disabled in the default server configuration and not part of the alphabet")
